@@ -44,6 +44,7 @@ def run(ctx, repo):
     ctx.call(R6B.r_no_truncating_zip, repo, ['constructor', 'resolver', 'representer'])
     ctx.call(RREG.r_cow, repo, only=['yaml_implicit_resolvers'])
     ctx.call(R6B.r_merge_by_tag, repo)
+    ctx.call(R6B.r_tz_sign_compared, repo)
 
 
 if __name__ == '__main__':
